@@ -251,6 +251,38 @@ def gen_hydrate(rng):
                      "collision": pick(rng, ["error", "source_wins", "local_wins"])}}
 
 
+INLINE_FIELDS = ["ID", "STATUS", "COUNT", "NAME", "WHEN", "TAGS", "OWNER", "LEVEL"]
+INLINE_CHAINS = ["REQ", "OPT", "REQ∧ENUM[A,B,C]", "OPT∧TYPE[NUMBER]", 'REQ∧REGEX["^[a-z]+$"]', "OPT∧DATE", "OPT∧ISO8601", "REQ∧TYPE[LIST]",
+                 "OPT∧RANGE[1,5]", "REQ∧MAX_LENGTH[8]∧MIN_LENGTH[2]", "REQ∧CONST[X]", "OPT∧TYPE[BOOLEAN]", "OPT∧ENUM[on,off]"]
+INLINE_TARGETS = ["", "→§INDEXER", "→§SELF", "→§T_A∨§T_B", "→§T_C∨§INDEXER∨§T_A∨§RISK_LOG", "→§NOWHERE", "→§./out/x.oct.md", "→§T_B∨§T_A∨§T_C∨§SELF∨§META"]
+
+
+def gen_inline_schema(rng):
+    """(schema text, [field names]) — a schema document with POLICY/FIELDS; several fields route to MANY targets
+    (`§A∨§B∨§C`: the router logs one entry per target, in the order of the specification)."""
+    name = pick(rng, ["INLINE_S", "CONFIG", "TASK"])
+    fields = rng.sample(INLINE_FIELDS, rng.randrange(2, 7))
+    L = [f"==={name}===", "META:", "  TYPE::SCHEMA", '  VERSION::"1.0"', "POLICY:", '  VERSION::"1.0"',
+         f"  UNKNOWN_FIELDS::{pick(rng, ['REJECT', 'WARN', 'WARN', 'IGNORE'])}",
+         f"  TARGETS::[{pick(rng, ['§T_A, §T_B, §T_C', '§T_A', '§T_C,§T_B'])}]"]
+    if rng.random() < .3:
+        L.append(f"  DEFAULT_TARGET::{pick(rng, ['§T_A', '§INDEXER', '§T_A∨§T_C'])}")
+    L.append("FIELDS:")
+    for f in fields:
+        L.append(f"  {f}::[{pick(rng, ['\"ex\"', '3', '[a,b]'])}∧{pick(rng, INLINE_CHAINS)}{pick(rng, INLINE_TARGETS)}]")
+    L.append("===END===")
+    return "\n".join(L) + "\n", name, fields
+
+
+def gen_inline_doc(rng, name, fields):
+    L = ["===D===", f"{name}:"]
+    vals = ["A", "B", "x", "abc", "3", "9", "true", '"2024-01-15"', "2024-02-30", '"2025-01-01T00:00:00Z"', "[a,b]", "[]", "X", "on", '"toolongvalue"', "null", "a"]
+    body = [f"  {f}::{pick(rng, vals)}" for f in fields if rng.random() < .85]
+    body += [f"  {u}::{pick(rng, vals)}" for u in rng.sample(UNKNOWN_FIELDS, pick(rng, [0, 0, 2, 3, 5]))]
+    rng.shuffle(body)
+    return "\n".join(L + body + ["===END==="]) + "\n"
+
+
 def sha(s):
     return hashlib.sha256(s.encode("utf-8")).hexdigest()
 
@@ -260,6 +292,7 @@ def gen_calls(rng, n, resources=(), frozen=None):
     `frozen`: {"ref": "frozen@sha256:…", "text": …} installed in every HOME's cache."""
     pool = [gen_doc(rng) for _ in range(max(12, n // 4))]
     pool += [(t, "resource") for _n, t in resources]
+    inline = [gen_inline_schema(rng) for _ in range(max(3, n // 40))]
     calls = []
     for i in range(n):
         doc, flav = pick(rng, pool)
@@ -331,7 +364,7 @@ def gen_calls(rng, n, resources=(), frozen=None):
             c.update(tool="compile", args=a)
         else:
             fn = pick(rng, ["parse_emit", "parse_warn", "tokenize", "seal", "project", "validate_api", "validate_api", "schema_extract", "gbnf", "gbnf", "exports",
-                            "hydrate", "hydrate"])
+                            "hydrate", "hydrate", "validate_inline", "validate_inline", "validate_inline"])
             a = {"content": doc}
             if fn == "parse_emit":
                 a["twice"] = rng.random() < .5
@@ -343,6 +376,9 @@ def gen_calls(rng, n, resources=(), frozen=None):
                 a = {"schema": pick(rng, SCHEMAS[1:]), "envelope": rng.random() < .7}
             if fn == "exports":
                 a = {"category": pick(rng, [None, "functions", "ast", "operators"])}
+            if fn == "validate_inline":
+                st, nm, fs = pick(rng, inline)
+                a = {"schema_content": st, "content": gen_inline_doc(rng, nm, fs), "strict": rng.random() < .3, "fix": rng.random() < .4, "gbnf": rng.random() < .3}
             if fn == "hydrate":
                 h = gen_hydrate(rng)
                 a, c["files"] = h["args"], h["files"]
